@@ -116,6 +116,78 @@ def run(tier='quick', seed=0):
                                     'advertised_goals': None if adv_goal is None else [str(t) for t in adv_goal]})
 
     r13 = c13_state.run(tier, seed + 1000, observer=observer, n_goals_override=(90 if tier == 'quick' else 500))
+
+    # ---- states in theory nat (rewrite rules with a symmetric hint, arithmetic facts), and initial states of library
+    # theorems in the theory cut off just before the theorem (methods and their macros may become available at
+    # different points of a theory file)
+    import json as _json
+    import random as _random
+    from logic import basic, context
+    from server import server
+    from kernel.proof import ItemID
+    rng2 = _random.Random(seed + 7)
+
+    def all_items(prf):
+        for it in prf.items:
+            yield it
+            if it.subproof:
+                yield from all_items(it.subproof)
+
+    def sorry_ids(prf):
+        return [it.id for it in all_items(prf) if it.rule == 'sorry']
+
+    def usable_facts(state, gid):
+        res = []
+        for it in all_items(state.prf):
+            try:
+                if it.th is not None and gid.can_depend_on(it.id):
+                    res.append(it.id)
+            except Exception:
+                pass
+        return res
+
+    def fill_none(state, step, gid):
+        from server import method as _m
+        m_ = _m.global_methods[step['method_name']]
+        for sig in m_.sig:
+            if sig not in step:
+                if sig == 'names':
+                    step['names'] = 'fresh_v1'
+                else:
+                    return None
+        return step
+
+    def visit(state, label):
+        h = {'rng': rng2, 'sorry_ids': sorry_ids, 'usable_facts': usable_facts, 'fill_params': fill_none,
+             'all_items': all_items, 'goal': label, 'trace': [], 'ctx_vars': {}}
+        for _ in range(3):
+            observer(state, h)
+
+    try:
+        basic.load_theory('nat')
+        nat_goals = ["odd n --> Suc x = y --> x * y + x * z = 0 --> false",
+                     "even n --> x + 1 = y --> n * (x + y) = z --> z = 0",
+                     "x * 2 = y --> ~(even y) --> false", "x + 0 = y --> y * 1 = z --> z = x"]
+        for gsrc in nat_goals:
+            context.set_context('nat', vars={'n': 'nat', 'x': 'nat', 'y': 'nat', 'z': 'nat'})
+            st = server.parse_init_state(gsrc)
+            visit(st, 'nat: ' + gsrc)
+        with open(REPO + '/library/nat.json', encoding='utf-8') as f_:
+            content = _json.load(f_)['content']
+        thms = [v for v in content if v.get('ty') == 'thm'][: (70 if tier == 'quick' else 400)]
+        if tier == 'quick':
+            thms = thms[::2]
+        for val in thms:
+            try:
+                basic.load_theory('nat', limit=('thm', val['name']))
+                context.set_context(None, vars=val['vars'])
+                st = server.parse_init_state(val['prop'])
+            except Exception:
+                continue
+            visit(st, 'nat.%s (theory up to the theorem)' % val['name'])
+    except Exception as e:
+        stats['nat_part_error'] = '%s: %s' % (type(e).__name__, str(e)[:150])
+    basic.load_theory('logic_base')
     seen = {}
     uniq = []
     by = {}
